@@ -12,10 +12,15 @@
     probe <alertname> <sev>     -> <cfg>.<receiver>[,…] | none  which webhook was notified of a NEW alert (sev x → r1, else r0)
     reload <cfg> <fault> <via>  -> ok | err:<stage>             stage = load | templates | receivers | tracing
     status                      -> <cfg> | unknown              the configuration the status API serves
+    astatus <name>              -> tgt=<state>:<sil ok>:<n inh> src=<state>:<n sil>:<n inh> grp=<…> flt=<roles>:<roles>:<roles>
+                                   an alert that is both silenced and inhibited + its source, as GET /api/v2/alerts reports them;
+                                   flt = who is listed with inhibited=false / silenced=false / active=false
+    starttorn <cfg> <cut>       -> refused:<stage>|started file=same|changed   start over a notification-log snapshot cut inside its last record
     stop                        -> ok
 -/
 import Driver.Util
 import AM.Model.Config
+import AM.Model.Ingest
 
 namespace Driver.Reload
 open Driver AM.Config
@@ -29,7 +34,7 @@ structure St where
 
 /-- the stage at which a fault of the generator is rejected -/
 def faultStage (fault : String) : String :=
-  if fault = "none" ∨ fault = "template-ok" then "none"
+  if fault = "none" ∨ fault = "template-ok" ∨ fault = "big" then "none"
   else if fault.startsWith "template" then "templates"
   else if fault.startsWith "receiver" then "receivers"
   else if fault.startsWith "tracing" then "tracing"
@@ -130,6 +135,22 @@ def step (σ : St) (op obs : List String) : St × List Msg :=
         s!"an alert posted while the dispatcher of {cfg} was loading was notified by [{who}], expected [{want}] only: the previous dispatcher was still consuming alerts"]
     ({ σ with app := a, implInForce := if r = "ok" then some cfg else σ.implInForce, lastFailed := r ≠ "ok", lastFault := "slow" },
       d ++ pf ++ [.tag "reload:slow"])
+  | ["astatus", name], [tg, sc, gr, fl] =>
+    let (σ', msgs) := step σ ["astatus", name] [tg, sc, gr]
+    -- visibility follows the reported status (AM.Ingest.passesFlags): the target is silenced by one silence AND inhibited by
+    -- one alert, the source is active; each of inhibited=false / silenced=false / active=false is an exclusion of its own
+    let roles (f : AM.Ingest.Flags) : String :=
+      joinList "," ((if AM.Ingest.passesFlags f 0 0 then ["src"] else []) ++ (if AM.Ingest.passesFlags f 1 1 then ["tgt"] else []))
+    let want := [("inhibited", roles { inhibited := false }), ("silenced", roles { silenced := false }), ("active", roles { active := false })]
+    let got := ((fl.splitOn "=").getD 1 "").splitOn ":"
+    let settled := tg = "tgt=suppressed:1:1" ∧ sc = "src=active:0:0" ∧ got.length = 3 ∧ !got.contains "err"
+    let pf : List Msg :=
+      if !settled then [] else
+        (want.zip got).filterMap fun ((flag, w), g) =>
+          if w = g then none else
+            some (Msg.propfail "get_filter_flags" "filter-flags"
+              s!"alert {name}: role=tgt is reported silenced and inhibited ({tg}), role=src active ({sc}); GET /api/v2/alerts?{flag}=false must list [{w}], it lists [{g}]")
+    (σ', msgs ++ (if settled then expectEq "astatus.flt" ("flt=" ++ ":".intercalate (want.map (·.2))) fl else []) ++ pf ++ [.tag "astatus:flags"])
   | ["astatus", name], [tg, sc, gr] =>
     let (σ', msgs) := step σ ["astatus", name] [tg, sc]
     -- GET /alerts/groups reports the CURRENT verdict too, not the one of the group's last flush
@@ -157,6 +178,15 @@ def step (σ : St) (op obs : List String) : St × List Msg :=
       ++ (if sc = "src=active:0:0" then [] else [Msg.propfail "mutes_eq_bruteforce" "api-status-unsuppressed"
             s!"alert {name} role=src is neither silenced nor inhibited, GET /api/v2/alerts reports {sc}"])
     (σ, expectEq "astatus.tgt" "tgt=suppressed:1:1" tg ++ expectEq "astatus.src" "src=active:0:0" sc ++ pf ++ [.tag "astatus"])
+  | ["starttorn", _cfg, cut], [r, file] =>
+    -- AM.Snapshot.decode_truncated: a snapshot cut inside its last record is not the encoding of any record list, the loader
+    -- rejects it as a whole; nothing of it may be in force afterwards, nor may the file be replaced by what was salvaged
+    let pf : List Msg :=
+      (if r.startsWith "started" then [Msg.propfail "decode_truncated" "torn-snapshot-partially-loaded"
+          s!"the notification-log snapshot in the data directory lacks the last {cut} bytes of its third record; the application started ({r}, {file}) instead of refusing the file"] else [])
+      ++ (if file = "file=changed" then [Msg.propfail "decode_truncated" "torn-snapshot-replaced"
+          s!"the torn notification-log snapshot (last {cut} bytes missing) was overwritten: {r} {file}"] else [])
+    (σ, expectEq "starttorn" "refused:nflog" r ++ expectEq "starttorn.file" "file=same" file ++ pf ++ [.tag "starttorn"])
   | ["stop"], [r] => (σ, expectEq "stop" "ok" r)
   | _, _ => (σ, [.diff "parse" "?" (" ".intercalate op ++ " -> " ++ " ".intercalate obs)])
 
